@@ -375,6 +375,11 @@ type lpResult struct {
 	// end-of-message packet of the last reply is held back; the caller
 	// releases it after looking at the state Login left behind
 	heldEOM []byte
+	// second login (lpOptions.Second)
+	ran2      bool
+	err2      error
+	panicked2 *rt.PanicInfo
+	watchdog2 bool
 }
 
 type lpOptions struct {
@@ -385,6 +390,15 @@ type lpOptions struct {
 	// before the client's write call of its last request packet returns (a
 	// fast server); the rest of the reply follows.
 	Overtake bool
+	// QueueSize is the channel's package queue capacity (default 256).
+	QueueSize int
+	// NoEOM: the last packet of the last scripted reply does not carry the
+	// end-of-message status (the reply never completes).
+	NoEOM bool
+	// Second: after the first Login has returned, Login is called again on
+	// the same connection; the peer answers its requests with this script.
+	Second    *lpScript
+	SecondCfg *tds.LoginConfig
 }
 
 func lpPacketize(rnd *rt.Rand, items []lpItem, class string) [][]byte {
@@ -414,12 +428,20 @@ func lpPacketize(rnd *rt.Rand, items []lpItem, class string) [][]byte {
 // lpRun performs one Login against the scripted peer.
 func lpRun(seed int64, s lpScript, cfg *tds.LoginConfig, opt lpOptions) lpResult {
 	var res lpResult
-	k, err := newKit(256, 0)
+	qs := 256
+	if opt.QueueSize > 0 {
+		qs = opt.QueueSize
+	}
+	k, err := newKit(qs, 0)
 	if err != nil {
 		res.err = err
 		return res
 	}
 	res.kit = k
+	rounds := s.Rounds
+	if opt.Second != nil {
+		rounds = append(append([][]lpItem(nil), s.Rounds...), opt.Second.Rounds...)
+	}
 	rnd := rt.NewRand(seed, "lp/"+opt.CutSeed)
 	var mu sync.Mutex
 	var cur []byte
@@ -440,16 +462,16 @@ func lpRun(seed int64, s lpScript, cfg *tds.LoginConfig, opt lpOptions) lpResult
 		r := round
 		round++
 		mu.Unlock()
-		if r < len(s.Rounds) {
+		if r < len(rounds) {
 			var pkts [][]byte
 			if opt.CutClass == "late-eom" {
 				var body []byte
-				for _, it := range s.Rounds[r] {
+				for _, it := range rounds[r] {
 					body = append(body, it.B...)
 				}
 				if len(body) > 0 {
 					pkts = c02Packets(body, nil, nil, true) // body packet without EOM + header-only EOM packet
-					if r == len(s.Rounds)-1 {
+					if r == len(rounds)-1 {
 						mu.Lock()
 						res.heldEOM = pkts[len(pkts)-1]
 						mu.Unlock()
@@ -457,7 +479,12 @@ func lpRun(seed int64, s lpScript, cfg *tds.LoginConfig, opt lpOptions) lpResult
 					}
 				}
 			} else {
-				pkts = lpPacketize(rnd, s.Rounds[r], opt.CutClass)
+				pkts = lpPacketize(rnd, rounds[r], opt.CutClass)
+			}
+			if opt.NoEOM && r == len(s.Rounds)-1 && len(pkts) > 0 {
+				last := append([]byte(nil), pkts[len(pkts)-1]...)
+				last[1] &^= xport.EOM
+				pkts[len(pkts)-1] = last
 			}
 			if opt.Overtake && len(pkts) >= 2 {
 				k.tr.Feed(pkts[0])
@@ -485,6 +512,21 @@ func lpRun(seed int64, s lpScript, cfg *tds.LoginConfig, opt lpOptions) lpResult
 		res.watchdog = true
 	}
 	res.elapsed = time.Since(t0)
+	if opt.Second != nil && !res.watchdog {
+		res.ran2 = true
+		ctx2, cancel2 := context.WithTimeout(k.ctx, opt.Timeout)
+		defer cancel2()
+		done2 := make(chan struct{})
+		go func() {
+			defer close(done2)
+			res.panicked2 = rt.Catch(func() { res.err2 = k.ch.Login(ctx2, opt.SecondCfg) })
+		}()
+		select {
+		case <-done2:
+		case <-time.After(opt.Timeout + 15*time.Second):
+			res.watchdog2 = true
+		}
+	}
 	mu.Lock()
 	res.writes = k.tr.Writes()
 	mu.Unlock()
